@@ -186,7 +186,7 @@ UNITS += [
              Rw("", "verr()", count=None, kind="err", why="RusticError construction dropped"),
              Rw("delete_pack(&pack)", "removed.vdelete_pack(&pack)", count=None, why="local closure delete_pack -> effectful stub whose PRECONDITION is 'this decision allows removal'"),
              Rw("indexer.add(pack)?", "indexer.vadd(pack, Ghost(decision))?", count=None, why="Indexer::add (live section) -> effectful stub: PRECONDITION 'the decision keeps the pack live'"),
-             Rw("indexer.add_remove(pack)?", "indexer.vadd_remove(pack, Ghost(decision))?", count=None, why="Indexer::add_remove (marked section) -> effectful stub: PRECONDITION 'the decision allows marking'"),
+             Rw("indexer.add_remove(pack)?", "indexer.vadd_remove(pack, Ghost(decision), Ghost(mark_time0), Ghost(prune_time))?", count=None, why="Indexer::add_remove (marked section) -> effectful stub: PRECONDITION 'the decision allows marking'"),
              Rw("pack.blobs\n                        .retain(|blob| used_ids.remove(&blob.id).is_some());", "vretain_still_used(&mut pack.blobs, used_ids);", why="Vec::retain with the closure literal |blob| used_ids.remove(&blob.id).is_some() -> stub (assumed contract)"),
              Rw("pack.blobs.sort_unstable();", "vsort_blobs_c02(&mut pack.blobs);", why="sort_unstable: permutation"),
          ],
@@ -201,9 +201,10 @@ UNITS += [
         // ... and nothing else touches the queue or the set of blobs still to be carried over
         /*@other_decisions_leave_queue_and_used_ids*/ pack.to_do != PackToDo::Repack ==> final(repack_packs)@ == old(repack_packs)@ && final(used_ids).s@ == old(used_ids).s@,
         // (implicit obligations, preconditions of the effectful stubs: only Keep/Recover packs enter the live section of the new
-        //  index; only Repack/MarkDelete/KeepMarked* packs are marked; only those and Delete packs are ever removed)
+        //  index; only Repack/MarkDelete/KeepMarked* packs are marked; only those and Delete packs are ever removed; a pack marked
+        //  in this run is recorded with this run's time, a pack that stays marked keeps its mark time)
 """,
-         hints=[("before", "match pack.to_do {", "    let ghost decision = pack.to_do;"),
+         hints=[("before", "match pack.to_do {", "    let ghost decision = pack.to_do; let ghost mark_time0 = pack.time;"),
                 ("after", "vsort_blobs_c02(&mut pack.blobs);", """                    proof {
                         let kept = retained;
                         assert forall|b: IndexBlob| old_blobs.contains(b) && old(used_ids).s@.contains(bid(b)) implies
